@@ -107,7 +107,7 @@ impl Property for C13 {
          PART B (single fault): a generated valid program (size-static instruction set, banks, nested labels) with non-ASCII comment lines and trailing comments and (one in three) a chunk \
          moved to an #include'd file; one fault is injected at an item position drawn from the tape - unknown mnemonic, undefined symbol operand, operand beyond every typed range, duplicate \
          label, malformed directive (`#d8 ,`, `#align`, `#nosuchdirective 1`, a misspelled field behind valid ones in a `#bankdef` block, a directive whose missing token is followed by a block comment that runs over a line break), a built-in function rejecting an argument written on the NEXT line of the call, a faulty `{...}` substitution on one line of a multi-line asm block, an asm-block rule at the end of the file called with an operand longer than its placeholder and out of range for the inner instruction - the reference assembler must reject exactly that item, the FIRST top-level error (for the three nested kinds: the innermost message, which names the cause) must be located in the right file on the faulty line, and every location of the whole message tree must be valid as in part A. Non-trivial = (A) a message with a location in a file containing a multi-byte character before it, (B) a multi-byte character precedes the fault in \
-         the same file or the fault is in the included file; distinct by hash of the files."
+         the same file or the fault is in the included file; distinct by hash of the files. (v4) two more single-fault kinds: the SAME instruction text valid under a first global label (`.zqloc = 1`) and faulty under a second (undeclared there, or far too large) - the program with a small `.zqloc` in both scopes must be valid by the rules; and for operand faults every message of the first error that NAMES the cause (`unknown symbol`, `argument out of range for type`) must lie on the faulty line. A quarter of the asm-block-argument cases read a position behind the faulty block from an earlier line (the listed finding an-earlier-line-reports-first)."
             .to_string()
     }
     fn tape_len(&self, _t: Tier) -> usize {
@@ -201,6 +201,17 @@ impl Property for C13 {
                             Item::Instr(ins.clone()),
                             Item::Label { dots: 0, name: "zqg2".into() },
                         ];
+                        // "an otherwise valid program": with a small `.zqloc` in the second scope as well, everything must
+                        // be valid by the rules (the first occurrence, and whatever the two new global labels re-parent)
+                        let mut valid = prog.clone();
+                        let mut vseq = seq.clone();
+                        vseq.push(Item::Const { dots: 1, name: "zqloc".into(), e: lit_of(1), noemit: false });
+                        vseq.push(Item::Instr(ins.clone()));
+                        valid.items.splice(at..at + 1, vseq);
+                        if !matches!(refasm::assemble(&valid), RefResult::Ok(_)) {
+                            ctx.skipped = true;
+                            return Verdict::Pass;
+                        }
                         if t.flip() {
                             seq.push(Item::Const { dots: 1, name: "zqloc".into(), e: huge(), noemit: false });
                             kind = "same-text-out-of-range-in-second-scope";
